@@ -533,6 +533,12 @@ class MultiScaling(object):
                 self._compute_scale_dtype(scaling.right_input_source, raw_data_type, scaler_data_types))
         elif isinstance(scaling, NoOpScaling):
             return raw_data_type.nptype
+        elif isinstance(scaling, (LinearScaling, RtdScaling, ThermocoupleScaling)):
+            # These scalings use the precision of their input, so single precision data stays single precision
+            input_dtype = self._compute_scale_dtype(scaling.input_source, raw_data_type, scaler_data_types)
+            if input_dtype == np.dtype('float32'):
+                return input_dtype
+            return np.dtype('float64')
         else:
             # Any other scaling type should produce double data
             return np.dtype('float64')
